@@ -1,10 +1,10 @@
 (** C15: a failed filter refresh changes nothing; a successful one stores a
     stable form.  Only statements here; proofs live in Proofs/RuleListParser.v
-    Proofs/Refresh.v and Proofs/RefreshEngine.v.  The parser theorems hold for every checksum
+    Proofs/Refresh.v, Proofs/RefreshEngine.v, Proofs/RefreshWrite.v and Proofs/RefreshRestart.v.  The parser theorems hold for every checksum
     function [crc] (hash/crc32 in the code). *)
 From Coq Require Import NArith List.
 From AGH Require Import Base.Run Model.RuleListParser Model.Refresh Proofs.RuleListParser Proofs.RuleListWrite
-  Proofs.Refresh Proofs.RefreshEngine Proofs.RefreshWrite.
+  Proofs.Refresh Proofs.RefreshEngine Proofs.RefreshWrite Proofs.RefreshRestart.
 Import ListNotations.
 Local Open Scope N_scope.
 
@@ -511,3 +511,146 @@ Print Assumptions C15_urls_stay_unique.
 
 Example C15_urls_unique_satisfiable : NoDup (urls RExamples.st1) /\ urls Ahead.st_later = [1; 11].
 Proof. exact urls_unique_example. Qed.
+
+(** ** Restarts of the process (round 5)
+
+    [hop] has the constructor [HRestart] ([Model.Refresh.restart]: the lists
+    through the configuration file, [loadFilters] for both arrays,
+    [deduplicateFilters], [EnableFilters(false)]), so every theorem above that
+    ranges over histories ([C15_metadata_in_step], [C15_metadata_describe_file],
+    [C15_engine_consistent], [C15_rebuilding_step_consistent],
+    [C15_urls_stay_unique], the [C15_failed_write_*] family) ranges over
+    histories with restarts at any place. *)
+
+(** A restart keeps the invariants (unique IDs, every enabled list's rule
+    count and checksum those of its stored file, disabled lists unloaded;
+    pairwise different URLs), leaves the engine in step with the files and
+    changes no file. *)
+Theorem C15_restart_preserves_invariants : forall crc st,
+  wf crc st -> NoDup (urls st) ->
+  wf crc (restart crc st) /\ NoDup (urls (restart crc st)) /\ engine_consistent (restart crc st) /\
+  r_files (restart crc st) = r_files st.
+Proof. exact restart_preserves_invariants. Qed.
+Print Assumptions C15_restart_preserves_invariants.
+
+Theorem C15_history_with_restarts_invariants : forall crc hs st,
+  wf crc st -> NoDup (urls st) ->
+  wf crc (run_hist crc hs st) /\ NoDup (urls (run_hist crc hs st)) /\
+  (engine_consistent st -> passes_ok crc hs st -> engine_consistent (run_hist crc hs st)) /\
+  engine_consistent (run_hist crc (hs ++ [HRestart]) st).
+Proof. exact history_with_restarts_invariants. Qed.
+Print Assumptions C15_history_with_restarts_invariants.
+
+(** No start-up procedure of the model (the variant that loads disabled lists
+    included) writes or removes a file. *)
+Theorem C15_restart_changes_no_file : forall crc all st, r_files (restart_v crc all st) = r_files st.
+Proof. exact restart_files. Qed.
+Print Assumptions C15_restart_changes_no_file.
+
+(** The "stable form" clause at start-up: what [loadFilters] computes from the
+    stored file of an enabled list is what the list had (same ID, URL, flag,
+    rule count and checksum, describing the file; the same entry altogether
+    unless it had no name), and a disabled list stays unloaded. *)
+Theorem C15_restart_recomputes_same_metadata : forall crc st allow k l,
+  wf crc st -> NoDup (urls st) ->
+  nth_error (arr allow st) k = Some l ->
+  exists l', nth_error (arr allow (restart crc st)) k = Some l' /\ same_meta (r_files st) l l' /\
+             (f_enabled l = true -> forall c, fget (f_id l) (r_files st) = Some c ->
+                describes crc (f_count l') (f_sum l') c).
+Proof. exact restart_recomputes_same_metadata. Qed.
+Print Assumptions C15_restart_recomputes_same_metadata.
+
+(** The state after a restart, exactly; and with every stored enabled list
+    named, a restart is an engine rebuild and nothing else. *)
+Theorem C15_restart_spec : forall crc st, wf crc st -> NoDup (urls st) ->
+  restart crc st =
+  {| r_block := map (named (r_files st)) (r_block st); r_allow := map (named (r_files st)) (r_allow st);
+     r_files := r_files st; r_engine := rebuild (r_block st) (r_allow st) (r_files st) |}.
+Proof. exact restart_spec. Qed.
+Print Assumptions C15_restart_spec.
+
+Theorem C15_restart_is_rebuild : forall crc st, wf crc st -> NoDup (urls st) ->
+  Forall (fun f => f_name f <> [] \/ fget (f_id f) (r_files st) = None \/ f_enabled f = false)
+         (r_block st ++ r_allow st) ->
+  restart crc st = rebuild_now st.
+Proof. exact restart_is_rebuild. Qed.
+Print Assumptions C15_restart_is_rebuild.
+
+(** A disabled list enabled again after a restart (URL kept), its source
+    delivering a list text with rules: no error, the normal form of the text
+    is stored and in force, rule count and checksum are its. *)
+Theorem C15_reenable_after_restart : forall crc allow u i name d re pst st pre f post,
+  NoDup (urls st) ->
+  arr allow st = pre ++ f :: post -> Forall (other_url u) pre -> f_url f = u -> f_id f = i ->
+  f_enabled f = false ->
+  parse crc d re = (pst, None) -> p_sum pst <> 0 ->
+  let '(rs, er, st') := set_props crc allow u name u true (OBody d re) (restart crc st) in
+  er = false /\ rs = true /\ engine_consistent st' /\
+  fget i (r_files st') = Some (output pst) /\
+  lookup i (eng_arr allow (r_engine st')) = Some (output pst) /\
+  exists f', In f' (arr allow st') /\ f_id f' = i /\ f_url f' = u /\ f_enabled f' = true /\
+             f_count f' = p_count pst /\ f_sum f' = p_sum pst.
+Proof. exact reenable_after_restart. Qed.
+Print Assumptions C15_reenable_after_restart.
+
+(** Disable, restart, enable again with unchanged content (in any spelling
+    with the stored normal form [c]): the file is still [c], its rules are in
+    force, rule count and checksum are those of before. *)
+Theorem C15_reenable_after_restart_keeps_file : forall crc allow u i name name' o d re pst st pre f post c,
+  wf crc st -> NoDup (urls st) ->
+  arr allow st = pre ++ f :: post -> Forall (other_url u) pre ->
+  Forall (other_id i) pre -> Forall (other_id i) post -> f_url f = u -> f_id f = i ->
+  f_enabled f = true -> fget i (r_files st) = Some c -> f_sum f <> 0 ->
+  parse crc d re = (pst, None) -> output pst = c ->
+  let st1 := snd (set_props crc allow u name u false o st) in
+  let '(rs, er, st3) := set_props crc allow u name' u true (OBody d re) (restart crc st1) in
+  er = false /\ rs = true /\ engine_consistent st3 /\
+  fget i (r_files st3) = Some c /\
+  lookup i (eng_arr allow (r_engine st3)) = Some c /\
+  exists f', In f' (arr allow st3) /\ f_id f' = i /\ f_enabled f' = true /\
+             f_count f' = f_count f /\ f_sum f' = f_sum f.
+Proof. exact disable_restart_reenable. Qed.
+Print Assumptions C15_reenable_after_restart_keeps_file.
+
+(** That clause as a statement about the start-up procedure: it holds for the
+    one of the code and is false for the variant that loads the disabled lists
+    as well (their checksum is then that of the file, the download on
+    re-enabling counts as "no change", which set_url reads as "no rules", and
+    the stored file is removed). *)
+Theorem C15_reenable_keeps_file : forall crc, reenable_keeps_file_statement crc (restart crc).
+Proof. exact reenable_keeps_file. Qed.
+Print Assumptions C15_reenable_keeps_file.
+
+Theorem C15_restart_loading_disabled_refuted :
+  ~ reenable_keeps_file_statement crc32_update (restart_v crc32_update true).
+Proof. exact reenable_keeps_file_loading_disabled_refuted. Qed.
+Print Assumptions C15_restart_loading_disabled_refuted.
+
+Example C15_restart_satisfiable :
+  restart crc32_update RExamples.st1 = RExamples.st1 /\
+  run_hist crc32_update [HRestart; HSet false 1 [120] 1 false OOpenErr; HRestart;
+                         HSet false 1 [120] 1 true (OBody RExamples.good false); HRestart] RExamples.st1
+  = LoadDisabled.st_on_ok /\
+  fget 1 (r_files RExamples.st1) = Some RExamples.good /\
+  map f_sum (r_block RExamples.st1) <> [0] /\
+  output (fst (parse crc32_update RExamples.good false)) = RExamples.good.
+Proof. exact restart_example. Qed.
+
+Example C15_load_disabled_witness :
+  fget 1 (r_files SetExamples.st_off) = Some RExamples.good /\
+  map f_enabled (r_block SetExamples.st_off) = [false] /\
+  map f_sum (r_block LoadDisabled.st_up_ok) = [0] /\
+  LoadDisabled.st_up_ok = SetExamples.st_off /\
+  fget 1 (r_files LoadDisabled.st_on_ok) = Some RExamples.good /\
+  verdict (r_engine LoadDisabled.st_on_ok) [112;49] = 2 /\
+  lookup 1 (e_block (r_engine LoadDisabled.st_on_ok)) = Some RExamples.good /\
+  map f_count (r_block LoadDisabled.st_up) = [1] /\
+  map f_sum (r_block LoadDisabled.st_up) <> [0] /\
+  r_files LoadDisabled.st_up = r_files SetExamples.st_off /\
+  fst (set_props crc32_update false 1 [120] 1 true (OBody RExamples.good false) LoadDisabled.st_up) = (true, false) /\
+  fget 1 (r_files LoadDisabled.st_on') = None /\
+  map f_enabled (r_block LoadDisabled.st_on') = [true] /\
+  map f_count (r_block LoadDisabled.st_on') = [1] /\
+  lookup 1 (e_block (r_engine LoadDisabled.st_on')) = None /\
+  fget 1 (r_files LoadDisabled.st_later) = None.
+Proof. exact load_disabled_example. Qed.
